@@ -1055,3 +1055,220 @@ Proof.
   rewrite (lor_add_disjoint _ e 6) by (pows; lia).
   pows. lia.
 Qed.
+
+(** ------------------------------------------------------------------
+    Operation sequences on one Raw / one Decoded object *)
+
+(** what every Decoded object reachable from DecodeFromBytes satisfies (pointers: any uint8 values) *)
+Definition sc (p : path) : Prop :=
+  wf_path p /\ shape_ok (pm (pbase p)) = true /\ pbase p = decoded_base (pm (pbase p)) /\
+  wf_u8 (pm (pbase p)) /\
+  seg0 (pm (pbase p)) < 64 /\ seg1 (pm (pbase p)) < 64 /\ seg2 (pm (pbase p)) < 64.
+
+Definition op_ok (o : op) : Prop :=
+  match o with OSetPtr ci ch => ci < 4 /\ ch < 64 | _ => True end.
+
+Lemma canonical_sc p : canonical p -> sc p.
+Proof.
+  intros (W & (M1 & M2 & M3 & M4 & M5) & SH & EB). unfold sc, wf_u8. repeat split; try assumption; try lia;
+    apply W.
+Qed.
+
+Lemma sc_canonical p : sc p -> curr_inf (pm (pbase p)) < 4 -> curr_hf (pm (pbase p)) < 64 -> canonical p.
+Proof.
+  intros (W & SH & EB & U & S0 & S1 & S2) H1 H2. unfold canonical, wf_meta. repeat split; try assumption; apply W.
+Qed.
+
+Lemma sc_range p : sc p -> ptrs_in_range p = true -> canonical p.
+Proof.
+  intros S PR. pose proof S as (W & SH & EB & _). destruct W as (_ & _ & W3).
+  unfold ptrs_in_range in PR. apply andb_true_iff in PR as [P1 P2]. apply N.ltb_lt in P1, P2.
+  assert (num_hops (pbase p) <= 64).
+  { rewrite EB. cbn [decoded_base num_hops]. apply shape_ok_prop in SH. lia. }
+  apply sc_canonical; [exact S | lia | lia].
+Qed.
+
+Lemma sc_with_ptrs p ci ch : sc p -> ci < 256 -> ch < 256 ->
+  sc (with_base p (base_with_ptrs (pbase p) ci ch)).
+Proof.
+  intros ((W1 & W2 & W3) & SH & EB & U & S0 & S1 & S2) H1 H2.
+  unfold sc, wf_path, with_base, base_with_ptrs, wf_u8. cbn [pbase pm infos hops num_inf num_hops].
+  destruct (pm (pbase p)) as [ci0 ch0 a b c] eqn:EM. cbn [with_ptrs curr_inf curr_hf seg0 seg1 seg2] in *.
+  repeat split; try assumption; try lia.
+  rewrite EB. reflexivity.
+Qed.
+
+Lemma inc_path_form b : shape_ok (pm b) = true -> b = decoded_base (pm b) -> wf_u8 (pm b) ->
+  exists ci' ch', fst (inc_path b) = base_with_ptrs b ci' ch' /\ ci' < 256 /\ ch' < 256 /\
+    (curr_inf (pm b) < 4 -> ci' < 4) /\ (curr_hf (pm b) < 64 -> ch' < 64).
+Proof.
+  intros SH EB (U1 & U2 & _). apply shape_ok_prop in SH.
+  destruct (pm b) as [ci ch x y z] eqn:EM. cbn [seg0 seg1 seg2 curr_inf curr_hf] in *.
+  unfold inc_path. rewrite EM. cbn [curr_inf curr_hf].
+  assert (NH : num_hops b = x + y + z) by (rewrite EB; reflexivity).
+  assert (NI : num_inf b = 0 -> x + y + z = 0).
+  { rewrite EB. unfold decoded_base, count_nonzero. cbn [num_inf seg0 seg1 seg2]. bdestr; lia. }
+  destruct (N.eqb_spec (num_inf b) 0) as [E|E].
+  - exists ci, ch. cbn [fst]. split; [|repeat split; lia].
+    destruct b as [m ni nh]. cbn [pm] in EM. subst m. reflexivity.
+  - destruct (N.leb_spec (num_hops b) (ch + 1)) as [L|L]; cbn [fst].
+    + exists ci, (u8 (num_hops b + 255)). split; [reflexivity|]. unfold u8. rewrite NH.
+      assert (0 < x + y + z).
+      { rewrite EB in E. unfold decoded_base, count_nonzero in E. cbn [num_inf seg0 seg1 seg2] in E.
+        revert E. bdestr; lia. }
+      repeat split; try lia.
+    + exists (inf_index_for_hf {| curr_inf := ci; curr_hf := ch; seg0 := x; seg1 := y; seg2 := z |} (u8 (ch + 1))),
+             (u8 (ch + 1)).
+      split; [reflexivity|]. unfold inf_index_for_hf, u8. cbn [seg0 seg1].
+      repeat split; try lia; bdestr; lia.
+Qed.
+
+Lemma sc_inc p : sc p -> sc (with_base p (fst (inc_path (pbase p)))).
+Proof.
+  intros S. pose proof S as (_ & SH & EB & U & _).
+  destruct (inc_path_form (pbase p) SH EB U) as (ci' & ch' & -> & H1 & H2 & _). now apply sc_with_ptrs.
+Qed.
+
+Lemma canonical_inc p : canonical p -> canonical (with_base p (fst (inc_path (pbase p)))).
+Proof.
+  intros C. pose proof (canonical_sc p C) as S. pose proof S as (_ & SH & EB & U & _).
+  destruct C as (_ & (M1 & M2 & _) & _).
+  destruct (inc_path_form (pbase p) SH EB U) as (ci' & ch' & E & H1 & H2 & H3 & H4). rewrite E.
+  apply sc_canonical; [now apply sc_with_ptrs | cbn; auto | cbn; auto].
+Qed.
+
+Lemma set_nth_length {A} (l : list A) i x : length (set_nth l i x) = length l.
+Proof.
+  unfold set_nth. rewrite app_length. rewrite <- (firstn_skipn i l) at 3. rewrite app_length. f_equal.
+  destruct (skipn i l); reflexivity.
+Qed.
+
+Lemma sc_reversed p : sc p -> num_inf (pbase p) <> 0 -> sc (reversed p).
+Proof.
+  intros (W & SH & EB & U & S0 & S1 & S2) NZ. pose proof W as (W1 & W2 & W3).
+  set (m := pm (pbase p)) in *.
+  assert (EN : num_inf (pbase p) = count_nonzero m) by (rewrite EB; reflexivity).
+  assert (EH : num_hops (pbase p) = seg0 m + seg1 m + seg2 m) by (rewrite EB; reflexivity).
+  destruct (swap_shape m SH) as (X1 & X2 & X3 & X4). cbv zeta in X1, X2, X3, X4.
+  destruct (X4 S0 S1 S2) as (L0 & L1 & L2). rewrite <- EN in *.
+  unfold sc, wf_path, reversed, wf_u8. cbn [pbase pm infos hops num_inf num_hops]. fold m.
+  rewrite map_length, !rev_length.
+  change (shape_ok (with_ptrs ?mm ?x ?y)) with (shape_ok mm).
+  cbn [with_ptrs curr_inf curr_hf seg0 seg1 seg2].
+  repeat split; try assumption; try (unfold rev_ptr, sub8; apply N.mod_lt; discriminate); try lia.
+  unfold decoded_base. cbn [pm].
+  change (count_nonzero (with_ptrs ?mm ?x ?y)) with (count_nonzero mm).
+  cbn [with_ptrs seg0 seg1 seg2]. rewrite X2, X3, <- EH. reflexivity.
+Qed.
+
+Lemma reverse_raw_empty p : canonical p -> num_inf (pbase p) = 0 -> reverse_raw p = Err.
+Proof.
+  intros C E. unfold reverse_raw, to_decoded. rewrite (to_raw_canonical p C).
+  unfold reverse_decoded. rewrite E. reflexivity.
+Qed.
+
+(** every operation keeps the invariants *)
+Lemma step_canonical p o : canonical p -> op_ok o -> canonical (so_path (step true p o)).
+Proof.
+  intros C OK. destruct o as [v| |ci ch| |i x|i x]; cbn [step so_path mk_sobs].
+  - now apply canonical_inc.
+  - destruct (N.eq_dec (num_inf (pbase p)) 0) as [E|E].
+    + rewrite (reverse_raw_empty p C E). exact C.
+    + destruct (reverse_raw_canonical p C E) as (-> & C' & _). exact C'.
+  - destruct OK as [H1 H2]. apply sc_canonical; [apply sc_with_ptrs; [now apply canonical_sc | lia | lia] | |];
+      cbn; assumption.
+  - exact C.
+  - destruct (i <? num_inf (pbase p)); [|exact C]. cbn [so_path mk_sobs].
+    destruct C as ((W1 & W2 & W3) & WM & SH & EB). unfold canonical, wf_path. cbn [pbase infos hops].
+    rewrite set_nth_length. tauto.
+  - destruct (i <? num_hops (pbase p)); [|exact C]. cbn [so_path mk_sobs].
+    destruct C as ((W1 & W2 & W3) & WM & SH & EB). unfold canonical, wf_path. cbn [pbase infos hops].
+    rewrite set_nth_length. tauto.
+Qed.
+
+Lemma step_sc p o : sc p -> op_ok o -> sc (so_path (step false p o)).
+Proof.
+  intros S OK. destruct o as [v| |ci ch| |i x|i x]; cbn [step so_path mk_sobs].
+  - now apply sc_inc.
+  - destruct (N.eq_dec (num_inf (pbase p)) 0) as [E|E].
+    + unfold reverse_decoded. rewrite E. exact S.
+    + destruct S as (W & R). rewrite (reverse_decoded_wf p W E). apply sc_reversed; [exact (conj W R) | exact E].
+  - destruct OK as [H1 H2]. apply sc_with_ptrs; [exact S | lia | lia].
+  - exact S.
+  - destruct (i <? num_inf (pbase p)); [|exact S]. cbn [so_path mk_sobs].
+    destruct S as ((W1 & W2 & W3) & R). unfold sc, wf_path. cbn [pbase infos hops].
+    rewrite set_nth_length. tauto.
+  - destruct (i <? num_hops (pbase p)); [|exact S]. cbn [so_path mk_sobs].
+    destruct S as ((W1 & W2 & W3) & R). unfold sc, wf_path. cbn [pbase infos hops].
+    rewrite set_nth_length. tauto.
+Qed.
+
+(** ... and shows what the property demands *)
+Lemma inc_oracle_model raw p v : sc p -> inc_oracle p (step raw p (OInc v)) = true.
+Proof.
+  intros (W & SH & EB & U & _). unfold inc_oracle. cbn [step so_code so_path mk_sobs].
+  destruct p as [b is hs]. cbn [pbase with_base infos hops] in *.
+  destruct (pm b) as [ci ch x y z] eqn:EM. cbn [curr_inf curr_hf] in *.
+  assert (SOK : shape_ok (mk x y z 0 0) = true) by exact SH.
+  assert (EBB : b = B x y z ci ch) by exact EB.
+  assert (NH : num_hops b = x + y + z) by (rewrite EB; reflexivity).
+  rewrite NH.
+  destruct (N.leb_spec (x + y + z) ch) as [L|L]; [reflexivity|].
+  destruct (N.eqb_spec (ch + 1) (x + y + z)) as [E|E].
+  - rewrite EBB at 1 2. rewrite (inc_last x y z SOK ci ch E). cbn [fst snd inc_code]. rewrite <- EBB.
+    rewrite N.eqb_refl, path_eqb_refl. reflexivity.
+  - assert (L2 : ch + 1 < x + y + z) by lia.
+    rewrite EBB at 1 2 3 4 5. rewrite (inc_mid x y z SOK ci ch L2).
+    cbn [fst snd inc_code B decoded_base pm curr_inf curr_hf mk pbase].
+    rewrite !N.eqb_refl. cbn [andb].
+    change {| curr_inf := ci; curr_hf := ch; seg0 := x; seg1 := y; seg2 := z |} with (mk x y z ci ch).
+    rewrite (seg_at_idx x y z SOK ci ch (ch + 1) L2). unfold opt_eqb, option_eqb. rewrite N.eqb_refl. cbn [andb].
+    rewrite EBB. rewrite B_with. apply path_eqb_refl.
+Qed.
+
+Lemma step_oracle_raw p o : canonical p -> step_oracle p o (step true p o) = true.
+Proof.
+  intros C. destruct o as [v| |ci ch| |i x|i x]; cbn [step_oracle]; try reflexivity.
+  - apply inc_oracle_model. now apply canonical_sc.
+  - cbn [step]. destruct (N.eqb_spec (num_inf (pbase p)) 0) as [E|E].
+    + rewrite (reverse_raw_empty p C E). reflexivity.
+    + destruct (reverse_raw_canonical p C E) as (-> & _). cbn [so_code so_path mk_sobs].
+      destruct (ptrs_in_range p) eqn:PR; [|reflexivity]. cbn [negb orb].
+      rewrite (rr_reversed p C PR), path_eqb_refl. reflexivity.
+  - cbn [step]. rewrite (to_raw_canonical p C). cbn [so_code so_path so_conv mk_sobs].
+    rewrite path_eqb_refl. unfold opath_eqb, option_eqb. rewrite path_eqb_refl. apply orb_true_r.
+Qed.
+
+Lemma step_oracle_dec p o : sc p -> step_oracle p o (step false p o) = true.
+Proof.
+  intros S. destruct o as [v| |ci ch| |i x|i x]; cbn [step_oracle]; try reflexivity.
+  - now apply inc_oracle_model.
+  - cbn [step]. pose proof S as (W & SH & EB & _).
+    destruct (N.eqb_spec (num_inf (pbase p)) 0) as [E|E].
+    + unfold reverse_decoded. rewrite E. reflexivity.
+    + rewrite (reverse_decoded_wf p W E). cbn [so_code so_path mk_sobs].
+      destruct (ptrs_in_range p) eqn:PR; [|reflexivity]. cbn [negb orb].
+      assert (HL : num_hops (pbase p) < 256).
+      { rewrite EB. cbn [decoded_base num_hops]. apply shape_ok_prop in SH. lia. }
+      pose proof (reverse_decoded_spec p W HL PR) as D2. rewrite (reverse_decoded_wf p W E) in D2.
+      assert (D3 : reversed p = spec_reverse p) by congruence.
+      rewrite D3, path_eqb_refl. reflexivity.
+  - cbn [step]. destruct (ptrs_in_range p) eqn:PR; [|reflexivity]. cbn [negb orb].
+    rewrite (to_raw_canonical p (sc_range p S PR)). cbn [so_code so_path so_conv mk_sobs].
+    rewrite path_eqb_refl. unfold opath_eqb, option_eqb. rewrite path_eqb_refl. reflexivity.
+Qed.
+
+Lemma sobs_eqb_refl s : sobs_eqb s s = true.
+Proof.
+  unfold sobs_eqb. rewrite N.eqb_refl, path_eqb_refl. unfold opath_eqb, option_eqb.
+  destruct (so_conv s); [now rewrite path_eqb_refl | reflexivity].
+Qed.
+
+Lemma seq_model_ok ops : forall r d, canonical r -> sc d -> Forall op_ok ops ->
+  seq_agree r d ops (seq_model r d ops) = true /\ seq_oracle r d ops (seq_model r d ops) = true.
+Proof.
+  induction ops as [|o ops IH]; intros r d C S OK; [split; reflexivity|].
+  apply Forall_cons_iff in OK as [O1 OK]. cbn [seq_model seq_agree seq_oracle].
+  destruct (IH _ _ (step_canonical r o C O1) (step_sc d o S O1) OK) as [A B].
+  rewrite !sobs_eqb_refl, A, (step_oracle_raw r o C), (step_oracle_dec d o S), B. split; reflexivity.
+Qed.
